@@ -67,11 +67,16 @@ class Check(BaseCheck):
         for k in range(6 if self.quick else 600):
             u = rng.normal(size=(int(rng.integers(3, 9)), 3)); u /= np.linalg.norm(u, axis=1)[:, None]
             w = rng.normal(size=len(u)) + 1j * rng.normal(size=len(u))
+            if k % 2:          # south pole, points next to it, the plane origin, far-away plane points
+                e = 10.0 ** rng.uniform(-9, -4)
+                u[0] = [0.0, 0.0, -1.0]; u[1] = [e, 0.0, -np.sqrt(1 - e * e)]
+                w[0] = 0.0; w[1] = 10.0 ** rng.uniform(-9, -5); w[2] = w[2] * 10.0 ** rng.uniform(3, 6)
             stats.case("stereo%d" % k, cls="stereographic", sample=dict(points=len(u)) if k == 0 else None)
             rs = wire.Reply(drv.ask("stereo %s" % wire.verts(u)))
             ri = wire.Reply(drv.ask("invstereo %s" % cfl(w)))
             if core.relerr(np.column_stack([conformal.stereographic(u).real, conformal.stereographic(u).imag]),
-                           np.column_stack([read_cs(rs).real, read_cs(wire.Reply(drv.ask("stereo %s" % wire.verts(u)))).imag])) > 1e-12:
+                           np.column_stack([read_cs(rs).real, read_cs(wire.Reply(drv.ask("stereo %s" % wire.verts(u)))).imag])) > 1e-12 \
+                    or not np.all(np.isfinite(conformal.stereographic(u))):
                 fails.append(core.Failure("correspondence", "stereographic vs model", "", dict(kind="stereo", u=u)))
             if core.relerr(conformal.inverse_stereographic(w), ri.v3s()) > 1e-12:
                 fails.append(core.Failure("correspondence", "inverse_stereographic vs model", "", dict(kind="stereo", w=np.column_stack([w.real, w.imag]))))
@@ -168,6 +173,11 @@ class Check(BaseCheck):
         rng = gen.rng_for(self.seed, "c18s")
         for k in range(6):
             u = rng.normal(size=(8, 3)); u /= np.linalg.norm(u, axis=1)[:, None]
+            if k % 2:       # the south pole (a regular point of the projection from the north pole), points close to it, the plane origin
+                u[0] = [0.0, 0.0, -1.0]; e = 10.0 ** rng.uniform(-9, -4); u[1] = [e, 0.0, -np.sqrt(1 - e * e)]
+                w = rng.normal(size=(8, 2)); w[0] = [0.0, 0.0]; w[1] = [10.0 ** rng.uniform(-9, -5), 0.0]; w[2] = 10.0 ** rng.uniform(3, 6) * w[2]
+                yield dict(kind="stereo", u=u, w=w)
+                continue
             yield dict(kind="stereo", u=u, w=rng.normal(size=(8, 2)))
         for k in range(8 if self.quick else 40):
             v, t = planar_mesh(rng)
@@ -192,7 +202,9 @@ class Check(BaseCheck):
             if "w" in case:
                 w = np.asarray(case["w"], float); wc = w[:, 0] + 1j * w[:, 1]
                 s = conformal.inverse_stereographic(wc)
-                if np.max(np.abs(np.linalg.norm(s, axis=1) - 1)) > 1e-12 or np.max(np.abs(conformal.stereographic(s) - wc)) > 1e-9 * max(1, np.abs(wc).max()):
+                # points far out in the plane map next to the projection centre: 1 - z cancels, the round trip loses ~|w|^2 digits there
+                if np.max(np.abs(np.linalg.norm(s, axis=1) - 1)) > 1e-12 or np.any(np.abs(conformal.stereographic(s) - wc) > 1e-10 * (1 + np.abs(wc) ** 3)) \
+                        or not np.all(np.isfinite(conformal.stereographic(s))):
                     return core.Violation("stereographic", "stereographic(inverse_stereographic(w)) != w or not on the unit sphere", case)
             return None
         if kind == "beltrami":
